@@ -35,6 +35,9 @@ func collConfig(r *rng, mode string) (Config, genOpts) {
 	case "map":
 		cfg.LL = "map"
 	}
+	if cfg.LL == "map" {
+		cfg.NilInit = r.chance(1, 2)
+	}
 	cfg.CachePersisted = r.chance(1, 3)
 	cfg.DeferredSort = r.chance(1, 3)
 	switch r.intn(4) {
